@@ -559,7 +559,9 @@ func (h *Session) Capture(mac net.HardwareAddr) error {
 	if Logger.IsInfo() {
 		Logger.Msg("captured").MAC("mac", mac).Write()
 	}
+	macEntry.Row.Lock() // log lines read the flag under the row lock
 	macEntry.Captured = true
+	macEntry.Row.Unlock()
 	return nil
 }
 
@@ -569,7 +571,9 @@ func (h *Session) Release(mac net.HardwareAddr) error {
 	defer h.mutex.Unlock()
 	macEntry, _ := h.MACTable.findMAC(mac)
 	if macEntry != nil {
+		macEntry.Row.Lock() // log lines read the flag under the row lock
 		macEntry.Captured = false
+		macEntry.Row.Unlock()
 		if Logger.IsInfo() {
 			Logger.Msg("release").MAC("mac", mac).Write()
 		}
